@@ -236,6 +236,7 @@ def main():
         tip_marks = [(i, t.split()[1]) for i, t in marks if t.startswith("tip ")]
         flush_marks = [(i, t.split()[1]) for i, t in marks if t.startswith("flush ")]
         opflush = [i for i, t in marks if t.startswith("op flush") or t.startswith("op invalidate") or t.startswith("op prune")]
+        opinval = [i for i, t in marks if t.startswith("op invalidate")]
         decoded = open(os.path.join(work, f"stdout{wl}.txt"), errors="replace").read()
         decoded = " ".join(l[8:] for l in decoded.splitlines() if l.startswith("DECODED "))[:600]
         # candidate cut points: after k0, at every op that changes durable state
@@ -280,8 +281,15 @@ def main():
                 stats["stopped_by"] = "time"
                 break
             tips = {base_tip} | {h for i, h in tip_marks if i < k}
-            fl = [h for i, h in flush_marks if i < k]
-            flushed = fl[-1] if fl else base_tip
+            fl = [(i, h) for i, h in flush_marks if i < k]
+            flushed = fl[-1][1] if fl else base_tip
+            last_flush_i = fl[-1][0] if fl else -1
+            # the work bound of the statement is about crashes, not about the operator invalidating blocks: if the workload
+            # invalidated a block after the last completed flush and before the cut, the tip's work was lowered on purpose and the
+            # bound is not asserted for this image (counted)
+            if any(last_flush_i < i < k for i in opinval):
+                flushed = ""
+                cls("work-clause-skipped:invalidate-after-last-flush")
             U = crashlib.unsynced_writes(ops, k)
             variants = [("kill", frozenset(), None)]
             if U:
